@@ -166,6 +166,18 @@ def run(F, R):
         if R.floor("C08-R3", "AppSetExt::persist calls after the result", len(ap), 1):
             R.check("C08-R3", "apps-before-commit", not (set(cm) & reach(S, S.succ[ucr[0]], cut_nodes=ap)), "every path to the commit persists the app set first (same commit group as the context)",
                     "the commit of a finished check can be reached without persisting the app set (e.g. skipped under a condition): the result is committed without the apps' cohort/user-counting")
+    # crash consistency: the bookkeeping of a check (failure counter, last-contact time) is written only once the check is
+    # decided, i.e. after the last point at which the context can be persisted mid-check (the exchange function commits
+    # it when the poll interval changes) — otherwise that commit stores one value of this check next to the other of the last
+    if ucr:
+        after_ = reach(S, S.succ[ucr[0]])
+        book = sorted(set(sm.writes(S, *LUT)) | set(sm.writes(S, *FC)))
+        mid = [x for x in ctx_sets if x not in after_]
+        if R.floor("C08-R3", "bookkeeping writes in a check", len(book), 2):
+            hit = sorted(set(mid) & reach(S, [y for x in book for y in S.succ[x]]))
+            p_ = path(S, [y for x in book for y in S.succ[x]], hit[:1]) if hit else None
+            R.check("C08-R3", "no-mid-check-persist-after-bookkeeping", not hit, "the context cannot be persisted between a bookkeeping write and the final persist",
+                    "after the bookkeeping of this check was (partly) written the context can still be persisted and committed mid-check: a crash leaves a mixture of two checks: %s" % (S.fmt_path(p_) if p_ else ""))
     if pcs:
         pc = pcs[0]
         pcm = [x for x in sm.env(Sr, "Storage", "commit") if smod.descends(Sr.nodes[x].ctx, pc)]
